@@ -523,6 +523,18 @@ func (sc *SizeCalculator) SplitToSize(text string, boundaries []Boundary) []stri
 
 		// Find split point using max limit (not target) to ensure chunks fit
 		splitPos := sc.FindSplitPointAt(remaining, boundaries, sc.config.Max.Value, sc.config.Max.Unit)
+
+		// A split point found by searching forward may lie beyond a hard maximum
+		// given in characters or tokens: pull it back to the last break that fits
+		if limit := sc.maxCharPos(); limit > 0 && splitPos > limit && splitPos <= len(remaining) {
+			for i := limit; i > 0; i-- {
+				if remaining[i] == ' ' || remaining[i] == '\n' {
+					splitPos = i + 1
+					break
+				}
+			}
+		}
+
 		if splitPos <= 0 || splitPos >= len(remaining) {
 			// Can't split further, add remaining as-is
 			chunks = append(chunks, remaining)
@@ -540,6 +552,20 @@ func (sc *SizeCalculator) SplitToSize(text string, boundaries []Boundary) []stri
 	}
 
 	return chunks
+}
+
+// maxCharPos returns the number of bytes the maximum allows when it is expressed
+// in characters or tokens, and 0 for the units that are only rough estimates
+func (sc *SizeCalculator) maxCharPos() int {
+	switch sc.config.Max.Unit {
+	case SizeUnitCharacters:
+		return sc.config.Max.Value
+	case SizeUnitTokens:
+		if sc.config.TokensPerChar > 0 {
+			return int(float64(sc.config.Max.Value) / sc.config.TokensPerChar)
+		}
+	}
+	return 0
 }
 
 // adjustBoundaryPositions adjusts boundary positions after a split
